@@ -156,6 +156,38 @@ def source(ctx, i, rng, d):
         old_.reference = None
         ctx.count("topless_netlists:%s" % ext)
         what += " (no top instance)"
+    if n is not None and rng.random() < 0.5:
+        # edits between import and export: instances and inner nets renamed (what they carry - identifiers read from the file,
+        # the '&' ones first - stays), a clock list that still names a net which was renamed away
+        k_ = 0
+        for l_ in n.libraries:
+            for d_ in l_.definitions:
+                inner = [c_ for c_ in d_.cables if c_.name and not c_.name.endswith("]") and
+                         not any(isinstance(p_, sdn.InnerPin) for w_ in c_.wires for p_ in w_.pins)]
+                for x_ in list(d_.children) + inner:
+                    if rng.random() < 0.1:
+                        try:
+                            x_["EDIF.identifier"] = "&_u%d_%d" % (i, k_)      # an identifier given by hand: '&' forms are legal
+                        except ValueError:
+                            pass
+                    amp = str(x_.get("EDIF.identifier", "")).startswith("&")
+                    if x_.name and rng.random() < (0.7 if amp else 0.15):
+                        try:
+                            x_.name = x_.name + "_ed%d" % k_
+                            k_ += 1
+                            if amp:
+                                ctx.count("renamed_elements_with_ampersand_identifiers")
+                        except ValueError:
+                            pass
+        ctx.count("elements_renamed_between_import_and_export", k_)
+        if ext == ".eblif" and n.top_instance is not None and n.top_instance.reference is not None:
+            topd_ = n.top_instance.reference
+            nets_ = [c_.name for c_ in topd_.cables if c_.name]
+            if rng.random() < 0.6:
+                topd_["EBLIF.clock"] = list(topd_.get("EBLIF.clock", [])) + rng.sample(nets_, min(len(nets_), 1)) + \
+                    ["clk_renamed_away"] * rng.choice([0, 1, 1])
+                ctx.count("clock_lists_edited")
+        what += " (edited after import)"
     return n, ext, what
 
 
